@@ -323,11 +323,20 @@ func RunByteStream(finals []BSFinal, seed int64, blobSizes []int, stride int) (r
 			} else {
 				bad("C16", "QueryWriteStatus failed on a well-formed resource name: %v", qe)
 			}
-			if left > 0 {
-				bad("C14", "%d goroutine(s) of the call are still alive 5 s after it ended: %s", left, sample)
-			}
-			if _, resv, _, _ := f.Cache.Stats(); resv != 0 {
-				bad("C14", "reserved=%d 5 s after the call ended", resv)
+			// residue: what counts is that it goes away and stays away - under load the server may get to the
+			// aborted stream only now
+			if !waitFor(func() bool {
+				n, smp := serverGoroutines()
+				left, sample = n-before, smp
+				_, rv, _, _ := f.Cache.Stats()
+				return left <= 0 && rv == 0
+			}, 10*time.Second) {
+				if left > 0 {
+					bad("C14", "%d goroutine(s) of the call are still alive 10 s after it ended: %s", left, sample)
+				}
+				if _, resv, _, _ := f.Cache.Stats(); resv != 0 {
+					bad("C14", "reserved=%d 10 s after the call ended", resv)
+				}
 			}
 		}
 	}
